@@ -57,9 +57,9 @@ def gen_expr(rng, root_name):
         s = pfx + rng.choice(NAMES)
         preds = []
         used = set()
-        for _ in range(rng.choice([0, 0, 1, 1, 2])):
+        for _ in range(rng.choice([0, 0, 1, 1, 2, 2, 3, 4])):
             apfx = rng.choice(["", "", "p:"])
-            an = rng.choice(["k", "m"])
+            an = rng.choice(["k", "m", "n"])
             if (apfx, an) in used:
                 continue
             used.add((apfx, an))
@@ -80,7 +80,8 @@ def gen_expr(rng, root_name):
 
 
 def gen_invalid(rng):
-    return rng.choice(["a[1]", 'a[@k="1" or @k="2"]', "a|b", "a/descendant-or-self::node()", "a[@k]", "a/../b", "a/*",
+    return rng.choice(['a[@k="1"][2][@m="2"]', 'a[@k="1"][@m="2"][@n]', 'a[@k="1"][@m="2" or @n="1"][@n="2"]',
+                       "a[1]", 'a[@k="1" or @k="2"]', "a|b", "a/descendant-or-self::node()", "a[@k]", "a/../b", "a/*",
                        "a//b", "a[@k!='1']", "a[position()=1]", "a[not(@k)]", "text()", "a[@k=1]"])
 
 
